@@ -178,7 +178,7 @@ def plan(prop, tier, seed):
         data(n(50, 600)); data(n(10, 80), with_close=True, updates=True); fam(n(20, 200), scen.window_session, "window"); data(n(3, 30), big_groups=True)
         fam(n(12, 200), scen.deep_session, "deep")
     elif prop == "C02":
-        data(n(40, 400)); fam(n(40, 500), scen.window_session, "window")
+        data(n(40, 400)); fam(n(40, 500), scen.window_session, "window"); fam(n(25, 400), scen.refresh_session, "refresh")
     elif prop == "C03":
         data(n(50, 500), p_rel=0.5); data(n(5, 60), big_groups=True); fam(n(30, 400), scen.wrap_partial_session, "wrap-partial")
     elif prop == "C04":
@@ -192,7 +192,7 @@ def plan(prop, tier, seed):
             s = S()
             G.append([("hs", scen.handshake_session(s, rotations=s % 4 == 0))])
         fam(n(40, 600), scen.hs_stray_session, "hs-stray")
-        fam(n(40, 600), scen.hs_outage_session, "hs-outage")
+        fam(n(40, 600), scen.hs_outage_session, "hs-outage"); fam(n(40, 800), scen.agreed_session, "agreed")
         fam(n(25, 400), scen.hs_migrate_session, "hs-migrate")
         if not q:
             # exhaustive fates for the first 6 handshake datagrams (4^6 = 4096 assignments), one seed
